@@ -223,9 +223,23 @@ impl<V: VringT<dmn::Mem> + Clone + Send + Sync + 'static> Machine<V> {
         // watchdog; what decides is the certificate taken afterwards
         // (a pending kick on a registered descriptor wakes the worker, so "every worker parked in
         // epoll_wait and the event log stable" is a final state, not a timing assumption)
-        if !self.s.quiesce() {
-            report::inconclusive("workers did not quiesce");
-            return None;
+        match self.s.quiesce_ex() {
+            dmn::Quiet::Yes => {}
+            dmn::Quiet::Timeout => {
+                report::inconclusive("workers did not quiesce");
+                return None;
+            }
+            dmn::Quiet::Storm => {
+                // the handler is entered over and over: judge it against the model right away
+                for r in 0..2 {
+                    let n = self.dispatches(r);
+                    if !self.rings[r].active() && self.rings[r].dispatched != usize::MAX && n > self.rings[r].dispatched + 1000 {
+                        return Some(("C11:inactive-ring:dispatched".to_string(), jo! {"ring" => r, "started" => self.rings[r].started, "enabled" => self.rings[r].enabled, "dispatch_storm" => true, "dispatches_while_inactive" => n - self.rings[r].dispatched}));
+                    }
+                }
+                report::inconclusive("dispatch storm on a ring the model considers active");
+                return None;
+            }
         }
         for r in 0..2 {
             let (t, rank) = self.owner(r);
